@@ -958,13 +958,18 @@ func (g *gen) entity() *Entity {
 	for i := 0; i < ne; i++ {
 		e.Events = append(e.Events, &Event{Name: evNames[i], Fields: g.simpleFields(rapid.IntRange(0, 3).Draw(t, "nevf"))})
 	}
-	nsum := rapid.IntRange(0, 2).Draw(t, "nsummaries")
+	nsum := rapid.IntRange(0, 3).Draw(t, "nsummaries")
+	// at most one summary may be unnamed (it takes the default name), in any position
+	unnamedAt := rapid.IntRange(-1, nsum-1).Draw(t, "unnamedsummary")
+	sumNames := rapid.Permutation([]string{"Overview", "Digest", "ByOwner"}).Draw(t, "summarynames")
 	for i := 0; i < nsum; i++ {
 		s := &TopicMessage{Fields: g.simpleFields(rapid.IntRange(0, 3).Draw(t, "nsf"))}
-		if i > 0 || rapid.Bool().Draw(t, "sumnamed") {
+		if i != unnamedAt {
 			// not built from the entity name: Order + "OrderSummary" would collide
 			// with a sibling entity OrderOrder's default summary
-			s.Name = []string{"Overview", "Digest"}[i]
+			s.Name = sumNames[i]
+		} else if i > 0 {
+			g.cls("summary-unnamed-after-named")
 		}
 		e.Summaries = append(e.Summaries, s)
 	}
